@@ -6,7 +6,7 @@ Core functions.
 import numpy as np
 import warnings
 from scipy.optimize import brentq, fsolve
-from scipy.stats import ttest_ind, ttest_1samp
+from scipy.stats import ttest_ind, ttest_1samp, rankdata
 from fractions import Fraction
 
 from .utils import get_prng, potential_outcomes, permute
@@ -79,9 +79,9 @@ def spearman_corr(x, y, alternative='greater', reps=10**4, seed=None, plus1=True
         Returns test statistic, p-value, simulated distribution
     """
     
-    xnew = np.argsort(x)+1
-    ynew = np.argsort(y)+1
-    return corr(xnew, ynew, alternative=alternative, reps=reps, seed=seed)
+    xnew = rankdata(x)
+    ynew = rankdata(y)
+    return corr(xnew, ynew, alternative=alternative, reps=reps, seed=seed, plus1=plus1)
 
 
 def two_sample_core(potential_outcomes_all, nx, tst_stat, alternative='greater',
